@@ -78,6 +78,47 @@ theorem packageSlices_standalone (pkg : SecKind → Bytes) (cols : List (SecKind
       · rw [contribution_absent cols k habs, hemp]; exact dwpRange_zero _
       · rw [contribution_unique cols k _ _ hm huniq, hp]; exact dwpRange_slice _ _ _
     simp only [hk, Out.bind_ok, ih (fun k' hk' => h k' (by simp [hk'])), Out.pure_eq, List.map_cons]
+open Gimli.Ints Gimli.Spec.Index in
+/-- **`find_cu` end to end**: on a package whose index holds the table built from `kvs`, whose
+`offsets`/`sizes` matrices are `offs`/`szs`, and in which row `row` of the matrices points, per
+column kind, at the standalone sections of the unit — the unit with id `id` listed at `row` is
+handed out with exactly its standalone sections, and an id that is not listed gives `None` -/
+theorem findUnit_exact (e : Endian) (kvs : List (Nat × Nat)) (ix : UnitIndex)
+    (hfind : ∀ id, find e ix id = scan kvs id)
+    (offs szs : List (List Nat))
+    (hk : ix.sections.length = ix.sectionCount) (hnodup : ix.sections.Nodup)
+    (hro : offs.length = ix.unitCount) (hrs : szs.length = ix.unitCount)
+    (hco : ∀ r, r ∈ offs → r.length = ix.sectionCount ∧ ∀ v, v ∈ r → v < 2 ^ 32)
+    (hcs : ∀ r, r ∈ szs → r.length = ix.sectionCount ∧ ∀ v, v ∈ r → v < 2 ^ 32)
+    (hoff : ix.offsets = encMatrix e offs) (hsz : ix.sizes = encMatrix e szs)
+    (pkg standalone : SecKind → Bytes) (id : Nat) :
+    (scan kvs id = none → findUnit e ix pkg id = .ok none) ∧
+    (∀ row, scan kvs id = some row → 1 ≤ row → row ≤ ix.unitCount →
+      (∀ kd, kd ∈ sliceOrder → Contributes pkg
+        (ix.sections.zip ((offs.getD (row - 1) []).zip (szs.getD (row - 1) []))) standalone kd) →
+      findUnit e ix pkg id = .ok (some (row, sliceOrder.map fun kd => (kd, standalone kd)))) := by
+  constructor
+  · intro h
+    unfold findUnit
+    rw [hfind id, h]
+  · intro row h h1 h2 hc
+    unfold findUnit
+    rw [hfind id, h]
+    simp only
+    rw [sections_matrix e ix offs szs row hk hro hrs hco hcs hoff hsz h1 h2]
+    simp only [Out.bind_ok]
+    have hu : ((ix.sections.zip ((offs.getD (row - 1) []).zip (szs.getD (row - 1) []))).map (·.1)).Nodup := by
+      have hpo : row - 1 < offs.length := by omega
+      have hps : row - 1 < szs.length := by omega
+      have ho := (hco _ (List.getElem_mem hpo)).1
+      have hs := (hcs _ (List.getElem_mem hps)).1
+      have hl : ix.sections.length ≤ ((offs.getD (row - 1) []).zip (szs.getD (row - 1) [])).length := by
+        simp [List.getD_eq_getElem?_getD, hpo, hps, ho, hs, hk]
+      have : (ix.sections.zip ((offs.getD (row - 1) []).zip (szs.getD (row - 1) []))).map (·.1) = ix.sections := by
+        rw [List.map_fst_zip]; exact hl
+      rw [this]; exact hnodup
+    rw [packageSlices_standalone pkg _ standalone hu sliceOrder hc]
+    rfl
 end Gimli.Index
 
 namespace Gimli.Indexed
